@@ -2,5 +2,5 @@ SPECIFICATION Spec
 CONSTANTS MaxPolls = 2 Names <- MCNames MaxLen = 3 MaxDepth = 3 Forests <- MCForests
 VIEW View
 INVARIANTS TypeOK Refines Budget WellNested Quiescent
-PROPERTIES Transactional Balanced
+PROPERTIES Transactional Balanced Linked InRange
 CHECK_DEADLOCK FALSE
